@@ -1032,3 +1032,147 @@ theorem parseFV_render_float (F : FloatCodec) (b : Nat) (h : FloatLaw F b) :
   simp [hl, hb, hp]
 
 end Kap.C18
+namespace Kap.C18
+open List
+
+/-! ## Names through the line protocol escaping (backslash-free names) -/
+
+theorem replaceByte_append (c : UInt8) (w a b : Bytes) :
+    replaceByte c w (a ++ b) = replaceByte c w a ++ replaceByte c w b := by
+  induction a with
+  | nil => simp [replaceByte]
+  | cons x xs ih =>
+    by_cases h : x = c <;> simp [replaceByte, h, ih]
+
+theorem rp_cons_ne (a b w x : UInt8) (r : Bytes) (h : x ≠ a) :
+    replacePair a b w (x :: r) = x :: replacePair a b w r := by
+  cases r with
+  | nil => simp [replacePair]
+  | cons y r' => simp [replacePair, h]
+
+theorem rp_pair (a b w : UInt8) (r : Bytes) : replacePair a b w (a :: b :: r) = w :: replacePair a b w r := by
+  simp [replacePair]
+
+theorem rp_a_notb (a b w y : UInt8) (r : Bytes) (h : y ≠ b) :
+    replacePair a b w (a :: y :: r) = a :: replacePair a b w (y :: r) := by
+  simp [replacePair, h]
+
+theorem rp_noBS (b w : UInt8) (s : Bytes) (h : BS ∉ s) : replacePair BS b w s = s := by
+  induction s with
+  | nil => simp [replacePair]
+  | cons x r ih =>
+    have hx : x ≠ BS := fun e => h (by simp [e])
+    rw [rp_cons_ne _ _ _ _ _ hx, ih (fun e => h (by simp [e]))]
+
+theorem escTag_cons (x : UInt8) (s : Bytes) :
+    escTag (x :: s) = (if x = COMMA ∨ x = SP ∨ x = EQ then [BS, x] else [x]) ++ escTag s := by
+  have e : x :: s = [x] ++ s := rfl
+  unfold escTag
+  rw [e, replaceByte_append, replaceByte_append, replaceByte_append]
+  congr 1
+  by_cases h1 : x = COMMA
+  · subst h1; decide
+  · by_cases h2 : x = SP
+    · subst h2; decide
+    · by_cases h3 : x = EQ
+      · subst h3; decide
+      · simp [replaceByte, h1, h2, h3]
+
+/-- **Tag keys and values survive**: `unescapeTag (escapeTag s) = s` for every backslash-free byte string
+(commas, spaces, `=`, quotes, unicode …). -/
+theorem unescTag_escTag (s : Bytes) (h : BS ∉ s) : unescTag (escTag s) = s := by
+  induction s with
+  | nil => simp [escTag, unescTag, replaceByte, replacePair]
+  | cons x r ih =>
+    have hx : x ≠ BS := fun e => h (by simp [e])
+    have ih' := ih (fun e => h (by simp [e]))
+    rw [escTag_cons]
+    unfold unescTag at ih' ⊢
+    by_cases h1 : x = COMMA
+    · subst h1
+      simp only [true_or, if_true, List.cons_append, List.nil_append]
+      rw [rp_pair BS COMMA COMMA, rp_cons_ne BS SP SP COMMA _ (by decide), rp_cons_ne BS EQ EQ COMMA _ (by decide), ih']
+    · by_cases h2 : x = SP
+      · subst h2
+        simp only [true_or, or_true, if_true, List.cons_append, List.nil_append]
+        rw [rp_a_notb BS COMMA COMMA SP _ (by decide), rp_cons_ne BS COMMA COMMA SP _ (by decide), rp_pair BS SP SP,
+            rp_cons_ne BS EQ EQ SP _ (by decide), ih']
+      · by_cases h3 : x = EQ
+        · subst h3
+          simp only [or_true, if_true, List.cons_append, List.nil_append]
+          rw [rp_a_notb BS COMMA COMMA EQ _ (by decide), rp_cons_ne BS COMMA COMMA EQ _ (by decide),
+              rp_a_notb BS SP SP EQ _ (by decide), rp_cons_ne BS SP SP EQ _ (by decide), rp_pair BS EQ EQ, ih']
+        · simp only [h1, h2, h3, or_self, if_false, List.cons_append, List.nil_append]
+          rw [rp_cons_ne BS COMMA COMMA x _ hx, rp_cons_ne BS SP SP x _ hx, rp_cons_ne BS EQ EQ x _ hx, ih']
+
+
+theorem escMeas_cons (x : UInt8) (s : Bytes) :
+    escMeas (x :: s) = (if x = COMMA ∨ x = SP then [BS, x] else [x]) ++ escMeas s := by
+  have e : x :: s = [x] ++ s := rfl
+  unfold escMeas
+  rw [e, replaceByte_append, replaceByte_append]
+  congr 1
+  by_cases h1 : x = COMMA
+  · subst h1; decide
+  · by_cases h2 : x = SP
+    · subst h2; decide
+    · simp [replaceByte, h1, h2]
+
+/-- **Measurements survive**: for a backslash-free name, what `MakeKey` writes (`EscapeMeasurement ∘
+unescapeMeasurement`) unescapes to the name. -/
+theorem unescMeas_escMeas (s : Bytes) (h : BS ∉ s) : unescMeas (escMeas (unescMeas s)) = s := by
+  have h0 : unescMeas s = s := by unfold unescMeas; rw [rp_noBS _ _ _ h, rp_noBS _ _ _ h]
+  rw [h0]
+  induction s with
+  | nil => simp [escMeas, unescMeas, replaceByte, replacePair]
+  | cons x r ih =>
+    have hx : x ≠ BS := fun e => h (by simp [e])
+    have hr : BS ∉ r := fun e => h (by simp [e])
+    have h0r : unescMeas r = r := by unfold unescMeas; rw [rp_noBS _ _ _ hr, rp_noBS _ _ _ hr]
+    have ih' := ih hr h0r
+    rw [escMeas_cons]
+    unfold unescMeas at ih' ⊢
+    by_cases h1 : x = COMMA
+    · subst h1
+      simp only [true_or, if_true, List.cons_append, List.nil_append]
+      rw [rp_pair BS COMMA COMMA, rp_cons_ne BS SP SP COMMA _ (by decide), ih']
+    · by_cases h2 : x = SP
+      · subst h2
+        simp only [or_true, if_true, List.cons_append, List.nil_append]
+        rw [rp_a_notb BS COMMA COMMA SP _ (by decide), rp_cons_ne BS COMMA COMMA SP _ (by decide), rp_pair BS SP SP, ih']
+      · simp only [h1, h2, or_self, if_false, List.cons_append, List.nil_append]
+        rw [rp_cons_ne BS COMMA COMMA x _ hx, rp_cons_ne BS SP SP x _ hx, ih']
+
+theorem escKey_cons (c : UInt8) (s : Bytes) :
+    escKey (c :: s) = (if c = COMMA ∨ c = DQ ∨ c = SP ∨ c = EQ then [BS, c] else [c]) ++ escKey s := by
+  simp [escKey]
+
+theorem escKey_nil_iff (s : Bytes) (h : escKey s = []) : s = [] := by
+  cases s with
+  | nil => rfl
+  | cons c r =>
+    rw [escKey_cons] at h
+    by_cases hc : c = COMMA ∨ c = DQ ∨ c = SP ∨ c = EQ <;> simp [hc] at h
+
+/-- **Field keys survive**: `escape.UnescapeString (escape.String s) = s` for every backslash-free key. -/
+theorem unescKey_escKey (s : Bytes) (h : BS ∉ s) : unescKey (escKey s) = s := by
+  induction s with
+  | nil => simp [escKey, unescKey]
+  | cons c r ih =>
+    have hc : c ≠ BS := fun e => h (by simp [e])
+    have ih' := ih (fun e => h (by simp [e]))
+    rw [escKey_cons]
+    by_cases hs : c = COMMA ∨ c = DQ ∨ c = SP ∨ c = EQ
+    · simp only [hs, if_true, List.cons_append, List.nil_append]
+      simp [unescKey, hs, ih']
+    · simp only [hs, if_false, List.cons_append, List.nil_append]
+      cases he : escKey r with
+      | nil =>
+        have := escKey_nil_iff r he
+        subst this
+        simp [unescKey]
+      | cons y rest =>
+        rw [he] at ih'
+        simp [unescKey, hc, ih']
+
+end Kap.C18
